@@ -721,7 +721,7 @@ def entry_kind(info: Rendered, k: int, l: int):
 
 def _phase_sum_explains(info: Rendered, t: int, k: int, l: int, value: complex) -> bool:
     """Is the real entry (k, l) what one gets by ADDING the phases of the channels of one addressing class that
-    drive the same basis (F15)?  value must equal  Σ_class (Σ_c Ω_c(t)/2)·e^{∓i Σ_c ψ_c}  with ψ_c one of the
+    drive the same basis AT THE SAME TIME (F23b: genuinely overlapping pulses; the non-overlapping case, F23, is fixed)?  value must equal  Σ_class (Σ_c Ω_c(t)/2)·e^{∓i Σ_c ψ_c}  with ψ_c one of the
     phases programmed on channel c (or 0)."""
     kind, diff, sk, sl = entry_kind(info, k, l)
     if kind != "drive":
@@ -750,12 +750,14 @@ def _phase_sum_explains(info: Rendered, t: int, k: int, l: int, value: complex) 
                 if c.basis == basis and c.cls == cls and c.weights[i] != 0.0:
                     chans.setdefault(c.ch, []).append(c)
             amp = 0.0
+            driving = 0
             for cs in chans.values():
-                for c in cs:
-                    if c.ti <= t < c.tf:
-                        amp += c.amp[t - c.ti]
+                a_ch = sum(c.amp[t - c.ti] for c in cs if c.ti <= t < c.tf)
+                amp += a_ch
+                driving += 1 if a_ch != 0.0 else 0
             phase_sets = [sorted({0.0} | {c.phase for c in cs}) for cs in chans.values()]
-            if len(chans) >= 2 and any(c.phase % (2 * math.pi) != 0.0 for cs in chans.values() for c in cs):
+            # true overlap only: at least two channels of the class drive this atom at this very time
+            if driving >= 2 and any(c.phase % (2 * math.pi) != 0.0 for cs in chans.values() for c in cs):
                 multi = True
             sums = {0.0}
             for ps in phase_sets:
@@ -792,7 +794,7 @@ def analyse(info: Rendered, t: int, Hr: np.ndarray, Hd: np.ndarray):
     for (k, l) in bad:
         kind = entry_kind(info, k, l)[0]
         if kind == "drive" and _phase_sum_explains(info, t, k, l, Hr[k, l]):
-            groups[("drive", "same-basis-channels-phase-sum")].append((k, l))
+            groups[("drive", "overlapping-same-basis-pulses-phase-sum")].append((k, l))
             continue
         if kind == "exchange" and info.xy and info.mask and t == info.mask_end:
             if Hoff is None:
